@@ -22,7 +22,7 @@ import (
 	"github.com/flamego/flamego/verifharness/internal/rt"
 )
 
-const rule = "case = a valid route set (possibly empty; some routes header-constrained, some with their constraints cleared again by Headers(); now and then 9..14 static subtrees under one node, with requests for segments that sort in front of, between and behind them; default, user-supplied or handler-less not-found set-up) and 1..8 requests whose method is any string (known, lower-case, unknown, empty, with blanks) and whose URL.Path is set directly to arbitrary bytes assembled from hostile pieces (empty, repeated/trailing slashes, '%', '%zz', NUL, 0xFF, route-syntax characters, runs up to 64 KiB / 4000 segments, instances of registered routes; optionally with an over-escaped URL.RawPath next to it), with nil or arbitrary headers (incl. constrained headers present with an empty list of values, 300 fields, a 70 KB value, the same field several times). " +
+const rule = "case = a valid route set (possibly empty; some routes header-constrained - now and then through two headers, with requests whose two values read alike side by side but are judged differently -, some with their constraints cleared again by Headers(); now and then 9..14 static subtrees under one node, with requests for segments that sort in front of, between and behind them; default, user-supplied or handler-less not-found set-up) and 1..8 requests whose method is any string (known, lower-case, unknown, empty, with blanks) and whose URL.Path is set directly to arbitrary bytes assembled from hostile pieces (empty, repeated/trailing slashes, '%', '%zz', NUL, 0xFF, route-syntax characters, runs up to 64 KiB / 4000 segments, instances of registered routes; optionally with an over-escaped URL.RawPath next to it), with nil or arbitrary headers (incl. constrained headers present with an empty list of values, 300 fields, a 70 KB value, the same field several times). " +
 	"Oracle: nothing escapes ServeHTTP; the application middleware started exactly once; exactly one of {a route handler, the not-found chain} ran; unknown methods go to the not-found chain (a method that is a known one in another letter case is left open); serving the same request again gives the identical outcome, also on a fresh instance in reverse order; the handler that ran is the reference matcher's winner (paths of <=64 segments without newline; longer ones: the route that answered admits the path, and an admitted path is not left to not-found). " +
 	"non-trivial = a case with a request whose path is not '/'-separated printable ASCII words (an escape, an empty segment, a non-UTF-8 or control byte, longer than 256 bytes) or whose method is not one of the nine; distinct by case text. Native fuzzing (thorough) decodes bytes into (route subset, method, not-found kind, header, path)"
 
@@ -435,6 +435,26 @@ func genCase(t *rapid.T) Case {
 			q.EH = []string{"X-Api", "Accept"}
 		}
 		c.Reqs = append(c.Reqs, q)
+	}
+	if len(c.Regs) > 0 && rapid.IntRange(0, 5).Draw(t, "cutpair") == 0 {
+		// a route constrained through two headers, and requests for it whose two
+		// values read the same when put side by side ("712" + "a", "7" + "12a") but
+		// are judged differently: the outcome is a function of the request, not of
+		// what an earlier request looked like
+		i := rapid.IntRange(0, len(c.Regs)-1).Draw(t, "cutreg")
+		c.Regs[i].H, c.Regs[i].HC = []string{"X-Api", "[0-9]+", "Accept", "^(a|b|7|1)$"}, false
+		ms := model.ExpandMethod(c.Regs[i].M)
+		m := ms[rapid.IntRange(0, len(ms)-1).Draw(t, "cutm")]
+		pth := "/" + strings.Join(gen.Instance(t, rt.Deriv(c.Regs[i].R), false), "/")
+		// (some pairs read alike in either order of the two headers)
+		pairs := [][2][2]string{{{"712", "a"}, {"7", "12a"}}, {{"77", "7"}, {"7", "77"}}, {{"12", "b"}, {"1", "2b"}}, {{"111", "1"}, {"1", "111"}}, {{"7", "7777"}, {"7777", "7"}}}[rapid.IntRange(0, 4).Draw(t, "cutvals")]
+		order := []int{0, 1, 0}
+		if rapid.Bool().Draw(t, "cutorder") {
+			order = []int{1, 0, 1}
+		}
+		for _, k := range order {
+			c.Reqs = append(c.Reqs, QReq{M: strconv.QuoteToASCII(m), P: strconv.QuoteToASCII(pth), H: [][2]string{{"X-Api", pairs[k][0]}, {"Accept", pairs[k][1]}}})
+		}
 	}
 	return c
 }
